@@ -934,6 +934,8 @@ func (gqm *GroupQuotaManager) OnPodUpdate(newQuotaName, oldQuotaName string, new
 		if !shouldBeIgnored(newPod) {
 			if quotaInfo.IsPodExist(newPod) {
 				gqm.updatePodRequestNoLock(newQuotaName, oldPod, newPod)
+				// keep the cached pod up to date, MigratePod works on it.
+				quotaInfo.updatePodIfPresent(newPod)
 			} else {
 				// it's means the pod creation is before quota creation.
 				gqm.updatePodCacheNoLock(newQuotaName, newPod, true)
